@@ -183,7 +183,7 @@ pub enum AnyObs {
     Str(String),
     Bool(bool),
     Int(i64),
-    /// `None`: JSON `null` / non-finite text in the double slot
+    /// `None`: JSON `null` in the double slot (protobuf always carries the value)
     Double(Option<f64>),
     Bytes(Vec<u8>),
     Array(Vec<AnyObs>),
@@ -281,7 +281,7 @@ fn any_pb(v: &Option<pb::common::v1::AnyValue>) -> AnyObs {
         Some(V::StringValue(s)) => AnyObs::Str(s.clone()),
         Some(V::BoolValue(b)) => AnyObs::Bool(*b),
         Some(V::IntValue(i)) => AnyObs::Int(*i),
-        Some(V::DoubleValue(d)) => AnyObs::Double(if d.is_finite() { Some(*d) } else { None }),
+        Some(V::DoubleValue(d)) => AnyObs::Double(Some(*d)),
         Some(V::BytesValue(b)) => AnyObs::Bytes(b.clone()),
         Some(V::ArrayValue(a)) => AnyObs::Array(a.values.iter().map(|v| any_pb(&Some(v.clone()))).collect()),
         Some(V::KvlistValue(kv)) => AnyObs::Kv(kv.values.iter().map(|kv| (kv.key.clone(), any_pb(&kv.value))).collect()),
@@ -355,7 +355,7 @@ pub fn decode_proto(path: &str, body: &[u8], out: &mut Decoded) -> Result<(), St
                                 time: p.time_unix_nano,
                                 value: match &p.value {
                                     Some(PV::AsInt(i)) => PointValue::Int(*i),
-                                    Some(PV::AsDouble(d)) => PointValue::Double(if d.is_finite() { Some(*d) } else { None }),
+                                    Some(PV::AsDouble(d)) => PointValue::Double(Some(*d)),
                                     None => PointValue::Missing,
                                 },
                                 attrs: attrs_pb(&p.attributes),
@@ -437,7 +437,10 @@ fn f64_json(t: &JsonTree) -> Result<Option<f64>, String> {
     match t {
         JsonTree::Null => Ok(None),
         JsonTree::Num(s) => s.parse::<f64>().map(Some).map_err(|_| format!("{:?} is not a double", s)),
-        JsonTree::Str(s) if ["NaN", "Infinity", "-Infinity"].contains(&s.as_str()) => Ok(None),
+        // the proto3 JSON spelling of non-finite doubles
+        JsonTree::Str(s) if s == "NaN" => Ok(Some(f64::NAN)),
+        JsonTree::Str(s) if s == "Infinity" => Ok(Some(f64::INFINITY)),
+        JsonTree::Str(s) if s == "-Infinity" => Ok(Some(f64::NEG_INFINITY)),
         other => Err(format!("expected a double, got {}", other.short())),
     }
 }
